@@ -1151,7 +1151,8 @@ static void process_source_list(const char *source_list,
       }
       LOG_FMT(LFILELIST, "%3d file to uncrustify: %s\n", line, fname);
 
-      if (fname[0] != '#')
+      if (  fname[0] != '#'
+         && fname[0] != 0)
       {
          char outbuf[1024];
          do_source_file(fname,
